@@ -16,6 +16,10 @@ OBLIGATIONS = [
        what='the running signature of the OASIS output stream equals the signature of the bytes that reached the file, for any interleaving of single-byte writes, block writes and integer codecs: CRC32 when requested (also with both kinds requested), else the byte sum when requested, else untouched',
        bound='7 write calls (3 single bytes, 2 blocks, an unsigned < 2^21 and a signed integer), all byte values symbolic; the four combinations of the two signature flags',
        variants=[{'WANT_CRC': c, 'WANT_SUM': k} for c in (0, 1) for k in (0, 1)], unwind=16, timeout=300, wrap_files=True, nvec=20),
+    Ob('repetition_writer_vs_reference', 'C02/rep_oas.c', [P + '22oasis_write_repetitionERNS_11OasisStreamENS_10RepetitionEd'], ir='ni', stubs=[x for x in TOKSTUBS if 'real' not in x and 'string' not in x], model='ie', defines={'MODE': 0, 'B': 1, 'IE_BITS': 14, 'REAL_TOL': 1},
+       what='oasis_write_repetition against a reference decoder of the repetition types 1..11: the emitted field denotes exactly the offsets of the repetition (multiset, first instance at the origin), for rectangular / regular lattices and explicit lists with spacings and coordinates of either sign',
+       bound='rectangular and regular 2x2, 3x1, 1x3, 2x3; explicit / explicit-x / explicit-y lists of 1..3 entries; values in -5..5; scaling 1',
+       variants=[{'KIND': k, 'A': a, 'B': b} for k in (1, 2) for (a, b) in ((2, 2), (3, 1), (1, 3), (2, 3))] + [{'KIND': k, 'A': a} for k in (3, 4, 5) for a in (1, 2, 3)], unwind=12, timeout=600, mem_gb=10, nvec=60),
 ]
 BOUNDS = 'single polygons with 3..5 vertices on a small integer grid; the writer and the reader are decided separately against one reference decoder'
 OUTSIDE = 'the composite write_oas -> read_oas query (no verdict: the record kind is a computed choice, the reader then allocates a symbolic amount); circle detection (transcendental); paths, labels, references, repetitions and properties in OASIS; name tables; CBLOCK compression (zlib) for 9 of 10 levels; validation signatures over whole files; repeated cycles'
